@@ -28,7 +28,8 @@ from vsc.visitors.constraint_copy_builder import ConstraintCopyBuilder, \
     ConstraintCollector
 from vsc.visitors.constraint_override_visitor import ConstraintOverrideVisitor
 from vsc.visitors.expr2field_visitor import Expr2FieldVisitor
-from vsc.visitors.foreach_ref_expander import ForeachRefExpander
+from vsc.visitors.foreach_ref_expander import ForeachRefExpander,\
+    ForeachElemOutOfRange
 from vsc.visitors.has_indexvar_visitor import HasIndexVarVisitor
 from vsc.visitors.model_pretty_printer import ModelPrettyPrinter
 from vsc.visitors.x_expr_evaluator import XExprEvaluator
@@ -103,6 +104,19 @@ class ArrayConstraintBuilder(ConstraintOverrideVisitor):
 
         self.index_set.remove(f.index)
         self.foreach_scope_s.pop()
+        
+    def visit_constraint_expr(self, c):
+        if self.do_copy_level > 0:
+            try:
+                super().visit_constraint_expr(c)
+            except ForeachElemOutOfRange:
+                # The statement refers to an element that the list cannot
+                # have, whatever its size: it cannot hold. (A statement 
+                # that is guarded by the size is never required then)
+                self.constraints.append(ConstraintExprModel(
+                    ExprLiteralModel(0, False, 1)))
+        else:
+            super().visit_constraint_expr(c)
         
     def visit_constraint_if_else(self, c:ConstraintIfElseModel):
         is_x, val = XExprEvaluator().eval(c.cond)
